@@ -153,7 +153,8 @@ class Index:
             if until:
                 start = self.prefix + until + b"\x00"
             else:
-                start = self.prefix + b"\xff"
+                # above every key of the index (a created_at of 0xff000000 or more starts with ff too)
+                start = self.prefix + b"\xff\xff\xff\xff\x01"
             cursor.set_range(start)
             stop = self.prefix
             if since:
